@@ -177,3 +177,23 @@ def nc_two_handles(total: int, pa: int, pb: int, n: int, off: int, kind: int) ->
         a.seek(off)
     got = _ids_nc(b.read(n_frames=1))
     return got == list(range(pb, min(pb + 1, total))) and len(b) == total and b.tell() == pb + len(got)
+
+
+# ------------------------------------------------------------------ histories (see harness/c18_text.py)
+
+def h5_history(total: int, c0: int, a0: int, c1: int, a1: int, c2: int, a2: int) -> bool:
+    """
+    pre: 2 <= total <= 4 and 0 <= c0 <= 5 and 0 <= c1 <= 5 and 0 <= c2 <= 5 and 0 <= a0 <= 3 and 0 <= a1 <= 3 and 0 <= a2 <= 3
+    post: __return__
+    """
+    from harness.c18_text import _hist3
+    return _hist3(mk_h5, total, c0, a0, c1, a1, c2, a2, _ids_h5)
+
+
+def nc_history(total: int, c0: int, a0: int, c1: int, a1: int, c2: int, a2: int) -> bool:
+    """
+    pre: 2 <= total <= 4 and 0 <= c0 <= 5 and 0 <= c1 <= 5 and 0 <= c2 <= 5 and 0 <= a0 <= 3 and 0 <= a1 <= 3 and 0 <= a2 <= 3
+    post: __return__
+    """
+    from harness.c18_text import _hist3
+    return _hist3(mk_nc, total, c0, a0, c1, a1, c2, a2, _ids_nc)
